@@ -92,7 +92,7 @@ func c06ConfigText(targets []c06TargetText, conc int) string {
 var (
 	c06MaxPool   = []string{"1", "1", "2", "2", "3", "3", "4", "5", "8", "20", "100", "1000000", "2147483647", "9223372036854775807", "+3", "007"}
 	c06MaxBad    = []string{"0", "-1", "abc", "1.5", "9223372036854775808"}
-	c06DurPool   = []string{"1ns", "1us", "1ms", "5ms", "250ms", "1s", "1.5s", "2s", "30s", "1m", "2m", "1h", "1d", "365d", "36500d", "1281023h", "2562047h", "2562047h47m16.854775807s"}
+	c06DurPool   = []string{"1ns", "1us", "1ms", "5ms", "250ms", "1s", "1.5s", "2s", "30s", "1m", "2m", "1h", "1d", "365d", "36500d", "1281023h", "2562047h", "2562047h47m16.854775807s"} // ordered; [7] = 2s, [10] = 2m
 	c06DurBad    = []string{"0", "-1s", "off", "5", "200000d"}
 	c06JitPool   = []string{"0", "0", "0.1", "0.2", "0.2", "0.5", "1", "1", "1.0", "0.999", "1e-9", "5e-1", ".25", "0x1p-2", "-0"}
 	c06JitBad    = []string{"NaN", "1.5", "-0.1", "x", "Inf"}
@@ -107,52 +107,59 @@ var (
 func genC06Retry(t *rapid.T, small bool, allowDefaults bool) C06RetryText {
 	var r C06RetryText
 	if small {
-		r.Max = rapid.SampledFrom(c06SmallMax).Draw(t, "max")
-		bi := rapid.IntRange(0, len(c06SmallDur)-1).Draw(t, "base_i")
-		ci := rapid.IntRange(bi, len(c06SmallDur)-1).Draw(t, "cap_i")
+		r.Max = pFrom(t, "max", c06SmallMax)
+		bi := pIdx(t, "base_i", len(c06SmallDur))
+		ci := bi + pIdx(t, "cap_i", len(c06SmallDur)-bi)
 		r.Base, r.Cap = c06SmallDur[bi], c06SmallDur[ci]
-		r.Jitter = rapid.SampledFrom(c06SmallJit).Draw(t, "jitter")
+		r.Jitter = pFrom(t, "jitter", c06SmallJit)
 		return r
 	}
-	shape := rapid.IntRange(0, 19).Draw(t, "shape")
-	if shape == 0 {
+	if pChance(t, "no_block", 1, 25) {
 		r.NoBlock = true
+		return r
 	}
-	pick := func(label string, good, bad []string, unsetOK bool) string {
-		k := rapid.IntRange(0, 29).Draw(t, label+"_k")
-		switch {
-		case k == 0:
-			return rapid.SampledFrom(bad).Draw(t, label+"_bad")
-		case k <= 3 && unsetOK:
-			return ""
-		}
-		return rapid.SampledFrom(good).Draw(t, label)
+	r.Max = pFrom(t, "max", c06MaxPool)
+	// base <= cap (the pool is ordered); the three ends-of-range durations are kept rare
+	nd := len(c06DurPool)
+	if !pChance(t, "huge_dur", 1, 6) {
+		nd -= 3
 	}
-	r.Max = pick("max", c06MaxPool, c06MaxBad, true)
-	// base <= cap most of the time (the pools are ordered)
-	bi := rapid.IntRange(0, len(c06DurPool)-1).Draw(t, "base_i")
-	ci := rapid.IntRange(0, len(c06DurPool)-1).Draw(t, "cap_i")
-	if ci < bi && rapid.IntRange(0, 9).Draw(t, "swap") != 0 {
-		bi, ci = ci, bi
-	}
+	bi := pIdx(t, "base_i", nd)
+	ci := bi + pIdx(t, "cap_i", nd-bi)
 	r.Base, r.Cap = c06DurPool[bi], c06DurPool[ci]
-	switch rapid.IntRange(0, 29).Draw(t, "dur_k") {
-	case 0:
-		r.Base = rapid.SampledFrom(c06DurBad).Draw(t, "base_bad")
-	case 1:
-		r.Cap = rapid.SampledFrom(c06DurBad).Draw(t, "cap_bad")
-	case 2, 3:
-		r.Base = ""
-	case 4, 5:
-		r.Cap = ""
+	r.Jitter = pFrom(t, "jitter", c06JitPool)
+	// unset fields inherit the defaults (max 8, base 2s, cap 2m, jitter 0.2 unless overridden)
+	switch pIdx(t, "unset", 12) {
+	case 8:
+		r.Max = ""
+	case 9:
+		r.Jitter = ""
+	case 10:
+		if bi <= 7 { // base <= 2s keeps base <= default cap 2m
+			r.Cap = ""
+		}
+	case 11:
+		if ci >= 7 { // cap >= 2s keeps default base 2s <= cap
+			r.Base = ""
+		}
 	}
-	r.Jitter = pick("jitter", c06JitPool, c06JitBad, true)
-	if allowDefaults && rapid.IntRange(0, 4).Draw(t, "defaults") == 0 {
-		r.DefMax = rapid.SampledFrom(c06MaxPool).Draw(t, "def_max")
-		r.DefJitter = rapid.SampledFrom(c06JitPool).Draw(t, "def_jitter")
-		if rapid.Bool().Draw(t, "def_dur") {
-			dbi := rapid.IntRange(0, len(c06DurPool)-1).Draw(t, "def_base_i")
-			dci := rapid.IntRange(dbi, len(c06DurPool)-1).Draw(t, "def_cap_i")
+	// rejected spellings, rarely
+	switch pIdx(t, "bad", 40) {
+	case 36:
+		r.Max = pFrom(t, "max_bad", c06MaxBad)
+	case 37:
+		r.Base = pFrom(t, "base_bad", c06DurBad)
+	case 38:
+		r.Jitter = pFrom(t, "jitter_bad", c06JitBad)
+	case 39:
+		r.Base, r.Cap = r.Cap, r.Base
+	}
+	if allowDefaults && pChance(t, "defaults", 1, 6) {
+		r.DefMax = pFrom(t, "def_max", c06MaxPool)
+		r.DefJitter = pFrom(t, "def_jitter", c06JitPool)
+		if pChance(t, "def_dur", 1, 2) {
+			dbi := pIdx(t, "def_base_i", len(c06DurPool)-3)
+			dci := dbi + pIdx(t, "def_cap_i", len(c06DurPool)-3-dbi)
 			r.DefBase, r.DefCap = c06DurPool[dbi], c06DurPool[dci]
 		}
 	}
@@ -453,21 +460,21 @@ func genC06TableCase() *rapid.Generator[C06TableCase] {
 		c := C06TableCase{Retry: genC06Retry(t, false, true)}
 		c.Rows = rapid.SliceOfN(rapid.Custom(func(t *rapid.T) C06Row {
 			var r C06Row
-			r.Att = rapid.IntRange(0, c06AttSelectors+11).Draw(t, "att")
-			withErr := rapid.IntRange(0, 2).Draw(t, "with_err") == 0
+			r.Att = pIdx(t, "att", c06AttSelectors+12)
+			withErr := pChance(t, "with_err", 1, 3)
 			if withErr {
-				r.Err = rapid.SampledFrom(c06ErrKinds).Draw(t, "err")
+				r.Err = pFrom(t, "err", c06ErrKinds)
 			}
-			if !withErr || rapid.IntRange(0, 4).Draw(t, "err_and_status") == 0 {
-				if rapid.Bool().Draw(t, "hot") {
-					r.Status = rapid.SampledFrom(c06StatusHot).Draw(t, "status")
+			if !withErr || pChance(t, "err_and_status", 1, 5) {
+				if pChance(t, "hot", 1, 2) {
+					r.Status = pFrom(t, "status", c06StatusHot)
 				} else {
-					r.Status = rapid.IntRange(100, 599).Draw(t, "status")
+					r.Status = pRange(t, "status", 100, 599)
 				}
 			}
 			return r
 		}), 1, 24).Draw(t, "rows")
-		c.Sweep = rapid.IntRange(0, 7).Draw(t, "sweep") == 0
+		c.Sweep = pChance(t, "sweep", 1, 8)
 		return c
 	})
 }
@@ -520,7 +527,11 @@ func runC06Row(target TargetConfig, row C06Row, step int, out *pOutcome) *verifk
 		out.label(c06StatusClass(row.Status))
 	}
 	if alts[0].Kind == "notack" {
-		out.label("open:" + c06StatusClass(row.Status) + "->" + obs.Kind)
+		if row.Err != "" {
+			out.label("open:err:" + row.Err + "->" + obs.Kind)
+		} else {
+			out.label("open:" + c06StatusClass(row.Status) + "->" + obs.Kind)
+		}
 	}
 	switch {
 	case attempt == target.Retry.Max:
